@@ -518,6 +518,9 @@ def liftCond (variables rngs : LFilter) (attrs : List (String × Int)) (pred : B
     laxCond pred (runInner attrs t args .tt pe pe.varGroups pe.rngGroups ctr)
       (runInner attrs f args .tt pe pe.varGroups pe.rngGroups ctr)) s
 
+/-- how `lax.cond` (and Python's `if pred:`) read a numeric predicate: truthiness, `pred != 0` -/
+def predOfInt (p : Int) : Bool := decide (p ≠ 0)
+
 /-- the Python control flow the lifted forms are compared with -/
 def pyCond (attrs : List (String × Int)) (pred : Bool) (t f : Fn) (args : List Int) (s : ScopeSt) :=
   if pred then runFn attrs t args s else runFn attrs f args s
